@@ -275,6 +275,13 @@ func (r *NodeManagement) processNotifyDetailedDiscoveryData(message *api.Message
 				}
 
 				entityAddress := ei.Description.EntityAddress.Entity
+
+				// the device information entity holds the node management feature, without it
+				// no further message of this device could be processed
+				if slices.Equal(entityAddress, DeviceInformationAddressEntity) {
+					continue
+				}
+
 				removedEntity := remoteDevice.RemoveEntityByAddress(entityAddress)
 
 				// only continue if the entity existed
